@@ -2,6 +2,7 @@ SPECIFICATION Spec
 CONSTANTS
   MaxOrder = 4
   MaxDim = 3
+  WithEmpty = TRUE
   HighOrders = {9}
   MaxSize = 36
 INVARIANT SpecOK
